@@ -39,7 +39,7 @@ import (
 
 const c10LogPrefix = "c10seen|"
 
-var c10Kinds = []string{"identity", "stamp", "dropodd", "dup", "create"}
+var c10Kinds = []string{"identity", "stamp", "dropodd", "dup", "create", "push"}
 
 // c10Case is one generated case (JSON-serialisable: journal / replay).
 type c10Case struct {
@@ -100,6 +100,23 @@ function transform_entities(entities) {
     AddReference(c, "` + p + `", "from", GetId(e));
     out.push(c);
 ` + tail
+	case "push":
+		// grows the array it was given and returns it: per chunk the output is the inputs followed
+		// by one created entity per input (order across the kinds of element depends on the chunking,
+		// so this kind is compared as a multiset)
+		return `function local(id) { return id.substring(id.indexOf(":") + 1); }
+function transform_entities(entities) {
+  var n = entities.length;
+  for (var i = 0; i < n; i++) {
+    var e = entities[i];
+    Log("` + c10LogPrefix + `" + GetId(e), "info");
+    var c = NewEntity();
+    SetId(c, "` + p + `:c-" + local(GetId(e)));
+    SetProperty(c, "` + p + `", "k", 7);
+    entities.push(c);
+  }
+  return entities;
+}`
 	}
 	panic("unknown kind " + kind)
 }
@@ -125,6 +142,8 @@ func c10Model(kind, p string, e *kit.Ent) []*kit.Ent {
 		d := e.Clone()
 		d.ID = e.ID + "-dup"
 		return []*kit.Ent{e.Clone(), d}
+	case "push":
+		return []*kit.Ent{e.Clone(), {ID: p + ":c-" + local, Props: map[string]any{p + ":k": float64(7)}, Refs: map[string]any{}}}
 	case "create":
 		return []*kit.Ent{{
 			ID: p + ":c-" + local,
@@ -355,7 +374,14 @@ func (env *c10Env) run(c c10Case) (problem, infra string) {
 		for _, e := range inputs {
 			want = append(want, c10Model(c.Kind, p, e)...)
 		}
-		if d := c10Diff(tag+": sequence handed to the sink", c10Keys(rec.seq), c10Keys(want)); d != "" {
+		ord := func(ks []string) []string {
+			if c.Kind == "push" {
+				ks = append([]string(nil), ks...)
+				sort.Strings(ks)
+			}
+			return ks
+		}
+		if d := c10Diff(tag+": sequence handed to the sink", ord(c10Keys(rec.seq)), ord(c10Keys(want))); d != "" {
 			return d
 		}
 		// (3) sink dataset: change feed grows by exactly the expected new versions, in order
@@ -366,7 +392,7 @@ func (env *c10Env) run(c c10Case) (problem, infra string) {
 		if d := c10Diff(tag+": sink change feed (old part)", c10Keys(after[:len(before)]), c10Keys(before)); d != "" {
 			return d
 		}
-		if d := c10Diff(tag+": new sink changes", c10Keys(after[len(before):]), c10Keys(wantNewSink)); d != "" {
+		if d := c10Diff(tag+": new sink changes", ord(c10Keys(after[len(before):])), ord(c10Keys(wantNewSink))); d != "" {
 			return d
 		}
 		return ""
